@@ -112,10 +112,6 @@ fn http_body(r: &LReq, variant: u64) -> String {
     format!("{{{}}}", fields.join(if variant % 4 == 3 { " ,\n " } else { "," }))
 }
 
-async fn http_req(port: u16, r: &LReq, variant: u64) -> Wire {
-    let body = http_body(r, variant);
-    parse_http(http_raw(port, &http_post(&body), false).await)
-}
 fn parse_http(res: Result<(u16, String), String>) -> Wire {
     match res {
         Err(e) => Wire::Broken(format!("http transport: {e}")),
@@ -188,12 +184,27 @@ fn parse_resp_reply(buf: &[u8]) -> Option<Wire> {
     }
 }
 
-async fn send(srv: &Server, proto: u64, r: &LReq, variant: u64) -> Wire {
-    match proto { 0 => with_timeout(http_req(srv.http, r, variant)).await, 1 => with_timeout(grpc_req(srv.grpc, r)).await, _ => with_timeout(resp_exchange(srv.redis, &resp_cmd(r, variant))).await }
+fn sent_http(body: &[u8]) -> String {
+    // the request body (after the blank line) as text; None when the request carries no JSON content type
+    let text = String::from_utf8_lossy(body).to_string();
+    let head_end = text.find("\r\n\r\n").map(|p| p + 4).unwrap_or(0);
+    let json_ct = text[..head_end].to_lowercase().contains("content-type: application/json");
+    if json_ct { format!("{{\"http_body\":{}}}", serde_json::to_string(&text[head_end..]).unwrap()) } else { "{\"http_raw\":true}".into() }
 }
+fn sent_grpc(r: &LReq) -> String { format!("{{\"grpc\":[{},{},{},{},{}]}}", serde_json::to_string(&r.key).unwrap(), r.b as i32, r.count as i32, r.period as i32, r.q.unwrap_or(0) as i32) }
+fn sent_resp(raw: &[u8]) -> String { format!("{{\"resp\":{}}}", bytes_json(raw)) }
+
+async fn send_s(srv: &Server, proto: u64, r: &LReq, variant: u64) -> (String, Wire) {
+    match proto {
+        0 => { let raw = http_post(&http_body(r, variant)); (sent_http(&raw), with_timeout(async { parse_http(http_raw(srv.http, &raw, false).await) }).await) }
+        1 => (sent_grpc(r), with_timeout(grpc_req(srv.grpc, r)).await),
+        _ => { let raw = resp_cmd(r, variant); (sent_resp(&raw), with_timeout(resp_exchange(srv.redis, &raw)).await) }
+    }
+}
+async fn send(srv: &Server, proto: u64, r: &LReq, variant: u64) -> Wire { send_s(srv, proto, r, variant).await.1 }
 
 /// malformed requests that mention key k: must be answered with a protocol-level error and consume nothing
-async fn send_malformed(srv: &Server, proto: u64, r: &LReq, kind: u64) -> (String, Wire) {
+async fn send_malformed(srv: &Server, proto: u64, r: &LReq, kind: u64) -> (String, String, Wire) {
     let key_json = serde_json::to_string(&r.key).unwrap();
     match proto {
         0 => {
@@ -208,11 +219,11 @@ async fn send_malformed(srv: &Server, proto: u64, r: &LReq, kind: u64) -> (Strin
                 7 => ("negative quantity", http_post(&format!("{{\"key\":{key_json},\"max_burst\":{},\"count_per_period\":{},\"period\":{},\"quantity\":-1}}", r.b, r.count, r.period))),
                 _ => ("key not a string", http_post(&format!("{{\"key\":17,\"max_burst\":{},\"count_per_period\":{},\"period\":{}}}", r.b, r.count, r.period))),
             };
-            (format!("http: {desc}"), with_timeout(async { parse_http(http_raw(srv.http, &raw, false).await) }).await)
+            (format!("http: {desc}"), sent_http(&raw), with_timeout(async { parse_http(http_raw(srv.http, &raw, false).await) }).await)
         }
         1 => {
             let bad = match kind % 3 { 0 => LReq { b: 0, ..r.clone() }, 1 => LReq { q: Some(-1), ..r.clone() }, _ => LReq { period: -5, ..r.clone() } };
-            (format!("grpc: invalid {:?}", (bad.b, bad.period, bad.q)), with_timeout(grpc_req(srv.grpc, &bad)).await)
+            (format!("grpc: invalid {:?}", (bad.b, bad.period, bad.q)), sent_grpc(&bad), with_timeout(grpc_req(srv.grpc, &bad)).await)
         }
         _ => {
             let k = &r.key;
@@ -227,7 +238,7 @@ async fn send_malformed(srv: &Server, proto: u64, r: &LReq, kind: u64) -> (Strin
                 6 => ("unknown command", bulk(&["THROTTLEX".into(), k.clone(), r.b.to_string(), r.count.to_string(), r.period.to_string()])),
                 _ => ("decimal quantity", bulk(&["THROTTLE".into(), k.clone(), r.b.to_string(), r.count.to_string(), r.period.to_string(), "1.0".into()])),
             };
-            (format!("resp: {desc}"), with_timeout(resp_exchange(srv.redis, &raw)).await)
+            (format!("resp: {desc}"), sent_resp(&raw), with_timeout(resp_exchange(srv.redis, &raw)).await)
         }
     }
 }
@@ -235,30 +246,43 @@ async fn send_malformed(srv: &Server, proto: u64, r: &LReq, kind: u64) -> (Strin
 const RATES: &[(i64, i64)] = &[(1, 1000), (1, 3600), (2, 2000), (3, 3000), (1, 86400), (5, 50000), (1, 100)];
 
 async fn fidelity(srv: &Server, rng: &mut Rng, cases: u64, tag: &str) {
+    // canonical witness of the known finding grpc-int32-range (findings/F8-grpc-int32-range.json), replayed first
+    {
+        let r = LReq { key: format!("{tag}witness"), b: 3, count: 1, period: 1000000000, q: Some(3) };
+        let t0 = Instant::now();
+        let (s1, w1) = send_s(srv, 1, &r, 0).await;
+        let r0 = LReq { q: Some(0), ..r.clone() };
+        let (s2, w2) = send_s(srv, 0, &r0, 0).await;
+        println!("{{\"mode\":\"fidelity\",\"case\":-1,\"witness\":\"F8\",\"elapsed_ms\":{},\"ops\":[{{\"proto\":1,\"variant\":0,\"req\":{},\"sent\":{},\"wire\":{}}},{{\"proto\":0,\"variant\":0,\"req\":{},\"sent\":{},\"wire\":{}}}]}}",
+            t0.elapsed().as_millis(), r.json(), s1, w1.json(), r0.json(), s2, w2.json());
+    }
     for c in 0..cases {
         let large = rng.chance(1, 6);
         let nkeys = rng.range(1, 2) as usize;
-        let keys: Vec<(String, i64, i64, i64)> = (0..nkeys).map(|n| {
-            let (count, period) = if large { *rng.pick(&[(1i64, 2147483647i64), (1, 100000), (2147483647, 2147483647)]) } else { *rng.pick(RATES) };
-            let b = if large { *rng.pick(&[2147483647i64, 100000, 3]) } else { rng.range(1, 5) };
-            (format!("{tag}{c}_{n}\u{e9}\""), b, count, period)
+        let keys: Vec<(String, i64, i64, i64, i64)> = (0..nkeys).map(|n| {
+            // large: durations beyond int32 seconds, but now + 2*B*E well inside i64 nanoseconds (no saturating arithmetic,
+            // whose results depend on the wall clock to the nanosecond; that regime is C08's, with explicit timestamps)
+            let (count, period, lb, qbig) = *rng.pick(&[(1i64, 1000000000i64, 3i64, 3i64), (1, 30000, 100000, 80000), (2147483647, 2147483647, 2147483647, 2000000000)]);
+            let (count, period) = if large { (count, period) } else { *rng.pick(RATES) };
+            let b = if large { lb } else { rng.range(1, 5) };
+            (format!("{tag}{c}_{n}\u{e9}\""), b, count, period, qbig)
         }).collect();
         let n = rng.range(3, 12);
         let t0 = Instant::now();
         let mut ops = Vec::new();
         for _ in 0..n {
-            let (key, b, count, period) = rng.pick(&keys).clone();
+            let (key, b, count, period, qbig) = rng.pick(&keys).clone();
             let proto = rng.below(3);
             let variant = rng.below(1000);
-            let q = if large { Some(*rng.pick(&[1i64, 2, 30000, 3])) } else { match rng.below(6) { 0 => None, 1 => Some(0), 2 => Some(2), 3 => Some(b), 4 => Some(b + 1), _ => Some(1) } };
+            let q = if large { Some(*rng.pick(&[1i64, 2, qbig, 3])) } else { match rng.below(6) { 0 => None, 1 => Some(0), 2 => Some(2), 3 => Some(b), 4 => Some(b + 1), _ => Some(1) } };
             let r = LReq { key, b, count, period, q };
             if rng.chance(1, 4) {
                 let kind = rng.below(1000);
-                let (desc, w) = send_malformed(srv, proto, &r, kind).await;
-                ops.push(format!("{{\"proto\":{proto},\"malformed\":{:?},\"req\":{},\"wire\":{}}}", desc, r.json(), w.json()));
+                let (desc, sent, w) = send_malformed(srv, proto, &r, kind).await;
+                ops.push(format!("{{\"proto\":{proto},\"malformed\":{:?},\"req\":{},\"sent\":{},\"wire\":{}}}", desc, r.json(), sent, w.json()));
             } else {
-                let w = send(srv, proto, &r, variant).await;
-                ops.push(format!("{{\"proto\":{proto},\"variant\":{variant},\"req\":{},\"wire\":{}}}", r.json(), w.json()));
+                let (sent, w) = send_s(srv, proto, &r, variant).await;
+                ops.push(format!("{{\"proto\":{proto},\"variant\":{variant},\"req\":{},\"sent\":{},\"wire\":{}}}", r.json(), sent, w.json()));
             }
         }
         println!("{{\"mode\":\"fidelity\",\"case\":{c},\"elapsed_ms\":{},\"ops\":[{}]}}", t0.elapsed().as_millis(), ops.join(","));
